@@ -115,6 +115,12 @@ func Call(contractState *statedb.ContractState, payload, contractAddress []byte,
 		return "", nil, "", fee, errors.New("stub vm: not enough gas")
 	}
 	var events []*types.Event
+	// like the real VM (executor.rollbackToSavepoint) a failing call undoes its own writes
+	savepoint := contractState.Snapshot()
+	fail := func(ev []*types.Event, f *big.Int, err error) (string, []*types.Event, string, *big.Int, error) {
+		_ = contractState.Rollback(savepoint)
+		return "", ev, "", f, err
+	}
 	for i, op := range prog.Ops {
 		if len(op) == 0 {
 			continue
@@ -122,14 +128,14 @@ func Call(contractState *statedb.ContractState, payload, contractAddress []byte,
 		switch op[0] {
 		case "set":
 			if len(op) < 3 {
-				return "", events, "", fee, errors.New("stub vm: bad set")
+				return fail(events, fee, errors.New("stub vm: bad set"))
 			}
 			if err := contractState.SetData([]byte(op[1]), []byte(op[2])); err != nil {
 				return "", events, "", fee, newDbSystemError(err)
 			}
 		case "del":
 			if len(op) < 2 {
-				return "", events, "", fee, errors.New("stub vm: bad del")
+				return fail(events, fee, errors.New("stub vm: bad del"))
 			}
 			if err := contractState.DeleteData([]byte(op[1])); err != nil {
 				return "", events, "", fee, newDbSystemError(err)
@@ -145,11 +151,11 @@ func Call(contractState *statedb.ContractState, payload, contractAddress []byte,
 			if len(op) > 1 {
 				msg = op[1]
 			}
-			return "", events, "", fee, errors.New(msg)
+			return fail(events, fee, errors.New(msg))
 		case "sysfail":
-			return "", events, "", fee, newVmSystemError(errors.New("stub vm: system failure"))
+			return fail(events, fee, newVmSystemError(errors.New("stub vm: system failure")))
 		default:
-			return "", events, "", fee, errors.New("stub vm: unknown op")
+			return fail(events, fee, errors.New("stub vm: unknown op"))
 		}
 		_ = i
 	}
@@ -166,6 +172,12 @@ func Create(contractState *statedb.ContractState, payload, contractAddress []byt
 	}
 	if err := contractState.SetData(dbkey.CreatorMeta(), []byte(types.EncodeAddress(ctx.sender.ID()))); err != nil {
 		return "", nil, "", fee, err
+	}
+	// stub contracts whose code ends in an odd digit allow fee delegation from the start
+	if n := len(payload); n > 0 && payload[n-1] >= '0' && payload[n-1] <= '9' && (payload[n-1]-'0')%2 == 1 {
+		if err := contractState.SetData([]byte("_fd"), []byte("1")); err != nil {
+			return "", nil, "", fee, err
+		}
 	}
 	return "", nil, "", fee, nil
 }
